@@ -42,9 +42,14 @@ pub fn vx_unreachable() -> !
     requires false
 { loop {} }
 
-/// T3: `panic!(..)` — diverges; allowed wherever the documentation says "panics".
+/// T3: `panic!(..)` — diverges.  A documented panic is allowed only where the caller's contract allows
+/// it: public `push*` take `requires not-full || panic_allowed()`; the crate's own call sites never
+/// have `panic_allowed()`, so reaching a panic from them is a failed obligation.
+pub uninterp spec fn panic_allowed() -> bool;
 #[verifier::external_body]
 pub fn vx_panic() -> !
+    //@ [env.no_internal_panic: C09,C15,C16]
+    requires panic_allowed()
 { loop {} }
 
 pub assume_specification<T>[core::convert::identity::<T>](x: T) -> (r: T)
